@@ -53,6 +53,21 @@ func bundledEngine(ctx context.Context, name string, hash, noise, depth uint, bo
 	}
 }
 
+// bundledSearch is the root search of a bundled engine.
+func bundledSearch(name string) search.Search {
+	switch name {
+	case "turochamp":
+		return search.AlphaBeta{Eval: search.Quiescence{Explore: turochamp.ConsiderableMovesOnly, Eval: search.Leaf{Eval: turochamp.Eval{}}}}
+	case "bernstein":
+		return search.AlphaBeta{Explore: bernstein.PlausibleMoveTable{Limit: 7}.Explore, Eval: search.Leaf{Eval: bernstein.Eval{Factor: 20}}}
+	case "sargon":
+		points := &sargon.Points{}
+		return sargon.Hook{Eval: search.AlphaBeta{Explore: sargon.SkipUnderPromotions, Eval: sargon.OnePlyIfChecked{Leaf: search.Leaf{Eval: points}}}, Hook: points}
+	default:
+		return search.AlphaBeta{Eval: search.Leaf{Eval: eval.Material{}}}
+	}
+}
+
 // bundledEngineSeed is bundledEngine without book and with a Zobrist / noise seed.
 func bundledEngineSeed(ctx context.Context, name string, hash, noise, depth uint, seed int64) (*engine.Engine, []uci.Option) {
 	switch name {
